@@ -8,7 +8,10 @@
 (* fill and sign are only recognised in front of an alignment character;   *)
 (* a bare width left-justifies with spaces.  When several splits at a ":"  *)
 (* give a valid sf, the longest sf wins (so ":" can be a fill character,   *)
-(* as the library's tests pin down).                                       *)
+(* as the library's tests pin down).  A spec like ":31" has exactly one    *)
+(* reading: empty sf, ansi part "31" (the library rejected it until its    *)
+(* commit db56092; an earlier version of this module excused that as an    *)
+(* ambiguity - wrongly, see DESIGN.md section 6).                          *)
 (***************************************************************************)
 EXTENDS Integers, Sequences
 
@@ -42,22 +45,11 @@ ValidSplit(spec, c) ==
   IF c = 0 THEN ParseSF(spec).valid
   ELSE spec[c] = 58 /\ ParseSF(SubSeq(spec, 1, c - 1)).valid
 
-\* Could a (the text after a leading ":") also be read as the continuation [sign][align][width][:...] of a
-\* string_format whose fill character is that ":"?  Then the spec has two readings (outside the claim).
-RECURSIVE SkipDigits(_, _)
-SkipDigits(a, i) == IF i <= Len(a) /\ FDigit(a[i]) THEN SkipDigits(a, i + 1) ELSE i
-ContinuationLike(a) ==
-  LET i1 == IF Len(a) >= 1 /\ FSign(a[1]) THEN 2 ELSE 1
-      i2 == IF i1 <= Len(a) /\ FAlign(a[i1]) THEN i1 + 1 ELSE i1
-      i3 == SkipDigits(a, i2)
-  IN i3 > Len(a) \/ a[i3] = 58
-
 ParseFmt(spec) ==
   LET cands == {c \in 0..Len(spec) : ValidSplit(spec, c)} IN
-  IF cands = {} THEN [valid |-> FALSE, sf |-> Bad, hasansi |-> FALSE, ansi |-> << >>, colonfill |-> FALSE]
+  IF cands = {} THEN [valid |-> FALSE, sf |-> Bad, hasansi |-> FALSE, ansi |-> << >>]
   ELSE LET c == IF 0 \in cands THEN 0 ELSE CHOOSE x \in cands : \A y \in cands : y <= x IN
-       IF c = 0 THEN [valid |-> TRUE, sf |-> ParseSF(spec), hasansi |-> FALSE, ansi |-> << >>, colonfill |-> FALSE]
+       IF c = 0 THEN [valid |-> TRUE, sf |-> ParseSF(spec), hasansi |-> FALSE, ansi |-> << >>]
        ELSE [valid |-> TRUE, sf |-> ParseSF(SubSeq(spec, 1, c - 1)), hasansi |-> TRUE,
-             ansi |-> SubSeq(spec, c + 1, Len(spec)),
-             colonfill |-> c = 1 /\ ContinuationLike(SubSeq(spec, 2, Len(spec)))]
+             ansi |-> SubSeq(spec, c + 1, Len(spec))]
 =============================================================================
